@@ -77,8 +77,6 @@ def cases(tier, seed):
     for q, dspec in c01.cases("quick" if BOUNDS[tier]["construction_leaves"] == 2 else "thorough", seed):
         if q in seen:
             continue
-        if q[3] is not None and any(s[0] == "const" for s in fol.subconds(q[3])):
-            continue  # Python bool constants as conditions are C01's recorded findings, not a question of laziness
         nleaves = sum(1 for s in (fol.subconds(q[3]) if q[3] else ()) if s[0] not in ("and", "or", "not"))
         if nleaves > BOUNDS[tier]["construction_leaves"]:
             continue
